@@ -50,7 +50,7 @@ const (
 
 // c42Case is the replayable description of one execution.
 type c42Case struct {
-	Kind   string   `json:"kind"`   // what transitions create: "file" or "dir" at path t; "gate": directories t and t2 in one call, held between the two changes until "release"; "macro": like "dir" but with the controller's habits as single events (sync = Scan+Transition, await = Poll+30 ms)
+	Kind   string   `json:"kind"`   // what transitions create: "file" or "dir" at path t; "gate": directories t and t2 in one call, held between the two changes until "release"; "pop": t is a directory populated with x and y, and the external edit "extchild" adds an unknown child t/z (so that a removal can succeed only partly); "macro": like "dir" but with the controller's habits as single events (sync = Scan+Transition, await = Poll+30 ms)
 	Events []string `json:"events"` // scan scanfull trans release poll cancel adv30 adv1s extedit extrev
 }
 
@@ -222,6 +222,16 @@ func newC42World(env *c42Env, kind string, res *c42Result, logger *logging.Logge
 	if err := os.WriteFile(filepath.Join(w.src, c42TPath), []byte(c42Content), 0o600); err != nil {
 		return nil, err
 	}
+	if kind == "pop" {
+		td := filepath.Join(w.root, c42TPath)
+		os.Mkdir(td, 0o700)
+		for name, content := range map[string]string{"x": "1", "y": "22"} {
+			os.WriteFile(filepath.Join(td, name), []byte(content), 0o600)
+			w.st.stamp(filepath.Join(td, name))
+		}
+		w.st.stamp(td)
+		w.st.stamp(w.root)
+	}
 	w.cleanData()
 	cfg := &synchronization.Configuration{
 		SynchronizationMode:  core.SynchronizationMode_SynchronizationModeTwoWaySafe,
@@ -254,6 +264,16 @@ func (w *c42World) cleanData() {
 	os.RemoveAll(filepath.Join(w.env.data, "staging", w.env.sid+"-beta"))
 }
 
+// childAddable: (variant "pop") t is a directory on disk without a child z.
+func (w *c42World) childAddable() bool {
+	if w.kind != "pop" {
+		return false
+	}
+	d := flatDisk(w.root)
+	_, hasZ := d[c42TPath+"/z"]
+	return d[c42TPath] == "dir" && !hasZ
+}
+
 func (w *c42World) enabled() []string {
 	rev := w.lt != nil && w.lt.changed && !w.lt.reversed && !w.lt.touched
 	var out []string
@@ -267,6 +287,9 @@ func (w *c42World) enabled() []string {
 	}
 	if w.polling {
 		out = append(out, "adv30", "adv1s", "extedit")
+		if w.childAddable() {
+			out = append(out, "extchild")
+		}
 		if rev {
 			out = append(out, "extrev")
 		}
@@ -296,6 +319,9 @@ func (w *c42World) enabled() []string {
 		out = append(out, "poll")
 	}
 	out = append(out, "adv30", "adv1s", "extedit")
+	if w.childAddable() {
+		out = append(out, "extchild")
+	}
 	if rev {
 		out = append(out, "extrev")
 	}
@@ -372,6 +398,17 @@ func (w *c42World) do(ev string) {
 		w.st.stamp(w.root)
 		w.tag("ext")
 		w.obs("extedit g -> state %d", w.gstate)
+	case "extchild":
+		p := filepath.Join(w.root, c42TPath, "z")
+		os.WriteFile(p, []byte("unknown"), 0o600)
+		w.st.stamp(p)
+		w.st.stamp(filepath.Join(w.root, c42TPath))
+		if w.lt != nil {
+			w.lt.touched = true // the transition path was modified externally after the transition
+		}
+		w.tag("ext")
+		w.tag("unknown-child")
+		w.obs("extchild t/z")
 	case "extrev":
 		for _, name := range w.tpaths() {
 			p := filepath.Join(w.root, name)
@@ -379,6 +416,12 @@ func (w *c42World) do(ev string) {
 				os.Remove(p)
 			} else if w.kind != "file" {
 				os.Mkdir(p, 0o700)
+				if w.kind == "pop" {
+					for child, content := range map[string]string{"x": "1", "y": "22"} {
+						os.WriteFile(filepath.Join(p, child), []byte(content), 0o600)
+						w.st.stamp(filepath.Join(p, child))
+					}
+				}
 				w.st.stamp(p)
 			} else {
 				os.WriteFile(p, []byte(c42Content), 0o600)
@@ -447,14 +490,20 @@ func (w *c42World) doScan(full bool) {
 		w.res.Nontrivial = true
 		w.tag("scan-after-transition")
 		for _, name := range w.tpaths() {
-			have, ok := got[name]
-			want := w.lt.want[name]
-			if want != "" && (!ok || have != want) {
-				w.violate("stale", fmt.Sprintf("Scan(full=%v) at %v after the transition at %v that created %s returned a snapshot without it: %s (disk: %s)",
-					full, w.now(), w.lt.at, name, flatString(got), flatString(disk)))
-			} else if want == "" && ok {
-				w.violate("stale", fmt.Sprintf("Scan(full=%v) at %v after the transition at %v that deleted %s still reports it: %s (disk: %s)",
-					full, w.now(), w.lt.at, name, flatString(got), flatString(disk)))
+			// The returned snapshot is compared with the harness' own walk of the
+			// disk at the transitioned path (and everything below it).
+			sub := func(m map[string]string) map[string]string {
+				out := map[string]string{}
+				for k, v := range m {
+					if k == name || strings.HasPrefix(k, name+"/") {
+						out[k] = v
+					}
+				}
+				return out
+			}
+			if g, d := sub(got), sub(disk); !flatEqual(g, d) {
+				w.violate("stale", fmt.Sprintf("Scan(full=%v) at %v after the transition at %v that changed the disk at %s does not reflect it: snapshot has [%s] there, the disk has [%s]",
+					full, w.now(), w.lt.at, name, flatString(g), flatString(d)))
 			}
 		}
 	}
@@ -556,9 +605,19 @@ func (w *c42World) finishTransition(ret c42TransRet) {
 	}
 	for i, name := range w.tpaths() {
 		w.kts[name] = ret.results[i]
-		delete(nb, name)
+		for k := range nb {
+			if k == name || strings.HasPrefix(k, name+"/") {
+				delete(nb, k)
+			}
+		}
 		if ret.results[i] != nil {
-			nb[name] = flatEntry(ret.results[i])[""]
+			for k, v := range flatEntry(ret.results[i]) {
+				if k == "" {
+					nb[name] = v
+				} else {
+					nb[name+"/"+k] = v
+				}
+			}
 		}
 	}
 	w.belief = nb
@@ -800,9 +859,9 @@ func isSubsequence(pat, h []string) bool {
 
 // c42Rank orders events for the canonical form of a minimal violating history.
 // c42EventNames is the event alphabet (index = compact encoding).
-var c42EventNames = []string{"scan", "scanfull", "trans", "release", "poll", "cancel", "adv30", "adv1s", "extedit", "extrev", "sync", "await"}
+var c42EventNames = []string{"scan", "scanfull", "trans", "release", "poll", "cancel", "adv30", "adv1s", "extedit", "extrev", "sync", "await", "extchild"}
 
-var c42Rank = map[string]int{"scan": 0, "scanfull": 1, "trans": 2, "sync": 2, "release": 3, "adv30": 4, "adv1s": 5, "poll": 6, "await": 6, "cancel": 7, "extedit": 8, "extrev": 9}
+var c42Rank = map[string]int{"scan": 0, "scanfull": 1, "trans": 2, "sync": 2, "release": 3, "adv30": 4, "adv1s": 5, "poll": 6, "await": 6, "cancel": 7, "extedit": 8, "extchild": 8, "extrev": 9}
 
 // minimiseC42 reduces a violating case to a canonical 1-minimal one: (1) greedy
 // delta debugging - remove single events while the case stays a valid history
@@ -867,7 +926,7 @@ func minimiseC42(t *testing.T, env *c42Env, c c42Case, clause string, runs *int6
 	// A history without transitions does not depend on the transition kind.
 	uses := false
 	for _, e := range cur {
-		if e == "trans" || e == "extrev" || e == "release" || e == "sync" || e == "await" {
+		if e == "trans" || e == "extrev" || e == "release" || e == "sync" || e == "await" || e == "extchild" {
 			uses = true
 		}
 	}
@@ -915,19 +974,19 @@ func TestC42(t *testing.T) {
 	// file variant costs a staging round per transition and adds nothing to the
 	// watch logic, so it runs one level shallower in the quick tier; depth 8 does
 	// not fit the 10 min thorough budget, 7 does).
-	depthOf := map[string]int{"macro": 5, "dir": 6, "file": 5, "gate": 5}
+	depthOf := map[string]int{"macro": 5, "pop": 5, "dir": 6, "file": 5, "gate": 5}
 	if vr.Thorough() {
-		depthOf = map[string]int{"macro": 7, "dir": 7, "file": 7, "gate": 7}
+		depthOf = map[string]int{"macro": 7, "pop": 7, "dir": 7, "file": 7, "gate": 7}
 	}
 	if s := os.Getenv("VERIF_C42_DEPTH"); s != "" { // for measuring tree sizes only
 		var d int
 		fmt.Sscan(s, &d)
-		depthOf = map[string]int{"macro": d, "dir": d, "file": d, "gate": d}
+		depthOf = map[string]int{"macro": d, "pop": d, "dir": d, "file": d, "gate": d}
 	}
 	depth := depthOf["dir"]
-	kinds := []string{"macro", "dir", "file", "gate"}
+	kinds := []string{"macro", "pop", "dir", "file", "gate"}
 	deadline := scaledDeadline(55*time.Second, 9*time.Minute)
-	r.Rule(fmt.Sprintf("every sequence of <= %d harness events (scan, scanfull, trans[create/delete t after staging], poll, cancel, adv30ms, adv1s, extedit[g: create/modify/delete], extrev[exact external reversal of the last transition]) that respects the Endpoint contract (one call outstanding, Transition only after a Scan), for t a directory (depth %d), t a file (depth %d), and a two-change transition (directories t and t2) held by a hook-layer gate between its two changes until a release event so that poll scans land inside it (depth %d), plus a controller-shaped variant whose events are whole habits (sync = Scan then Transition, await = Poll then 30 ms; depth %d, so it reaches much longer raw histories); histories are visited level by level (all variants of length d before any of length d+1); each history is a fresh bubble replayed from scratch; non-trivial = a Scan was judged after a disk-changing transition, or an external modification created a notification obligation; distinct by (kind, event list)", depth, depthOf["dir"], depthOf["file"], depthOf["gate"], depthOf["macro"]))
+	r.Rule(fmt.Sprintf("every sequence of <= %d harness events (scan, scanfull, trans[create/delete t after staging], poll, cancel, adv30ms, adv1s, extedit[g: create/modify/delete], extrev[exact external reversal of the last transition]) that respects the Endpoint contract (one call outstanding, Transition only after a Scan), for t a directory (depth %d), t a file (depth %d), and a two-change transition (directories t and t2) held by a hook-layer gate between its two changes until a release event so that poll scans land inside it (depth %d), plus a controller-shaped variant whose events are whole habits (sync = Scan then Transition, await = Poll then 30 ms; depth %d, so it reaches much longer raw histories); histories are visited level by level (all variants of length d before any of length d+1); each history is a fresh bubble replayed from scratch; non-trivial = a Scan was judged after a disk-changing transition, or an external modification created a notification obligation; distinct by (kind, event list)", depth, depthOf["dir"], depthOf["file"], depthOf["gate"], depthOf["macro"], depthOf["pop"]))
 	r.Assume("real local endpoint, force-poll, 1 s interval, accelerated scanning, probe mode assume, staging in the data directory",
 		"granularity: harness events happen only at quiescence (synctest.Wait); interleavings inside one quiescence step and Go select choice are not owned (divergent_replays counts observed differences)",
 		"second sentence judged on what the consumer can see: while the disk differs from what the consumer was last told (Scan result + transition results) and no notification was delivered since it was told, a Poll must return within interval + 2 x coalescing window of virtual time from the last change of disk or belief; modifications undone before a poll could sample them, or already reported by a Scan, owe nothing",
